@@ -897,6 +897,13 @@ def check_C08(c):
                               G.binop(y, G.binop(x, A, B), G.binop(x, C_, D)), G.un("not", G.binop(x, A, G.binop(y, B, C_)))):
                         cases.append((G.join_tokens(rdm.program(t)), t))
             nb += run_grouping(c, t2, cases, prelude=pre, name="registered infix @%d %s" % (p, "RIGHT" if right else "LEFT"))
+    # one precedence level holding operators of both associativities is outside the property (it does not say how such a
+    # level groups); the model still says what the code does there, so it is compared, without an oracle
+    from .checks import adjacent_cases
+    mtable, mpre, mcases = adjacent_cases(c, 1500 if c.quick() else 30000, mixed=True)
+    mreqs = mpre + [parse_req(s_) for s_, _ in mcases]
+    mi_, mm_ = both(mreqs, timeout=600)
+    c.add_stream(Stream("PARSE with a RIGHT and a LEFT operator registered at one precedence (model vs crate only)", mreqs, mi_, mm_, numeric=False))
     c.extra["precedences_tried"] = precs
     return c.finish(trusted=TB_COMMON, rule="registration histories in a fresh process each (new names, re-registration, override of a built-in before/after first use, context shadowing, name bound as variable) + operators registered at %d precedences × both associativities parsed against every built-in neighbour (all orders, both nestings, with not)" % len(precs))
 
@@ -1512,7 +1519,7 @@ def check_C16(c):
         for r in reqs:
             c.count(r + str(hi))
         # each call alone: same context history for *its* context only, nothing else before it, fresh process
-        for j in ([rng.below(k)] if c.quick() else range(k)):
+        for j in (sorted({rng.below(k) for _ in range(4)}) if c.quick() else range(k)):
             cid, p, kind_ = calls[j]
             own = ["CTX\t%s\t()" % cid] + [exec_line(cid, q) for (cc, q, kk) in calls[:j] if cc == cid and kk == "EXEC"]
             own.append(exec_line(cid, p) if kind_ == "EXEC" else "%s\t%s" % (kind_, hx(p)))
